@@ -89,6 +89,7 @@ fn directed_f1(scratch: &std::path::Path) -> Result<Option<String>, String> {
         cfg: cfg.clone(),
         txns: t.txns.clone(),
         failed: failed.clone(),
+        failed_recs: vec![],
         plans: vec![last],
         probe_every: 0,
         base_dir: None,
@@ -110,6 +111,85 @@ fn directed_f1(scratch: &std::path::Path) -> Result<Option<String>, String> {
                 )));
             }
         }
+    }
+    Ok(None)
+}
+
+const F2: &str = "C15-flush-on-close-after-failed-manifest-sync";
+
+/// Directed fault scenario: the sync that follows the installation of a new manifest fails
+/// once; the store is closed with flush_on_close; every crash image from the fault on must open.
+fn directed_f2(scratch: &std::path::Path) -> Result<Option<String>, String> {
+    let cfg = Cfg { flush_on_close: true, max_memtable_size: 1 << 20, vlog: true, vlog_threshold: 16, ..Cfg::default() };
+    let w = Workload {
+        txns: 24,
+        committers: 1,
+        nkeys: 6,
+        max_value: 60,
+        immediate_pct: 0,
+        sync_every: 0,
+        close_at_end: true,
+        delete_pct: 10,
+        first_txn: 1,
+        big_batch_pct: 0,
+        manual_flush_every: 5,
+        hook_rotate_pct: 0,
+        hook_flush_pct: 0,
+    };
+    let mut fired = 0;
+    for ord in [3u64, 4, 5, 6, 7, 8] {
+        let name = format!("f2-{}", ord);
+        let spec = format!("manifest.fsync:{}:eio:once", ord);
+        let t = e2::run_worker(scratch, &name, &cfg, &w, 78, Some(&spec), None)?;
+        let fault_pos = match t.recs.iter().position(|r| r.op == Op::Fault) {
+            Some(p) => p,
+            None => {
+                cleanup(scratch, &name, &t);
+                continue;
+            }
+        };
+        fired += 1;
+        let mut pr = Rng::new(1);
+        let plans: Vec<_> = e2::plan_images(&t, &mut pr, false, 1).into_iter().filter(|p| p.upto >= fault_pos && p.loss == crate::trace::Loss::Process).collect();
+        if plans.is_empty() {
+            cleanup(scratch, &name, &t);
+            continue;
+        }
+        let n = plans.len();
+        let job = Job {
+            trace_file: scratch.join(format!("{}.trace", name)),
+            root: t.root.clone(),
+            cfg: cfg.clone(),
+            txns: t.txns.iter().filter(|x| x.first_seq > 0).cloned().collect(),
+            failed: t.failed.iter().map(|f| f.id).collect(),
+            failed_recs: vec![],
+            plans: plans.clone(),
+            probe_every: 0,
+            base_dir: None,
+            keep_dir: None,
+        };
+        let jobfile = scratch.join(format!("{}.job.json", name));
+        std::fs::write(&jobfile, serde_json::to_vec(&job.to_json()).unwrap()).map_err(|e| e.to_string())?;
+        let pool = e2::run_pool(&jobfile, n, 4);
+        let _ = std::fs::remove_file(&jobfile);
+        cleanup(scratch, &name, &t);
+        for res in pool.results {
+            for pb in res["problems"].as_array().cloned().unwrap_or_default() {
+                let c = pb[0].as_str().unwrap_or("");
+                if c == "open" || c == "read" || c == "vlog_read" {
+                    let idx = res["idx"].as_u64().unwrap_or(0) as usize;
+                    return Ok(Some(format!(
+                        "flushes every 5 commits, sync #{} on the manifest fails once with EIO (the new manifest is already installed), close() with flush_on_close; process crash after trace record {}: {}",
+                        ord,
+                        plans[idx.min(n - 1)].upto,
+                        pb[1].as_str().unwrap_or("")
+                    )));
+                }
+            }
+        }
+    }
+    if fired == 0 {
+        return Err("no manifest sync fault fired".into());
     }
     Ok(None)
 }
@@ -141,6 +221,17 @@ pub fn run(a: &Args) -> i32 {
         }
         Err(e) => run.inconclusive(&format!("directed scenario {}: {}", F1, e)),
     }
+    match directed_f2(&scratch) {
+        Ok(None) => {}
+        Ok(Some(what)) => {
+            if crate::evidence::finding_open(&findings, F2) {
+                run.known_finding(F2, &what);
+            } else {
+                run.violation(&format!("directed scenario {}: {}", F2, what), json!({"engine": "c15", "scenario": F2}));
+            }
+        }
+        Err(e) => run.inconclusive(&format!("directed scenario {}: {}", F2, e)),
+    }
     let nbases = a.tier.pick(4, 12);
     let per_base = a.tier.pick(44, 400);
     let mut r = Rng::new(a.seed ^ 0xC15);
@@ -150,10 +241,16 @@ pub fn run(a: &Args) -> i32 {
         let mut tr = r.fork(bi as u64);
         let mut cfg = crate::props::crash::e2_cfg(&mut tr, if bi % 2 == 0 { VlogMode::On } else { VlogMode::Off });
         cfg.max_memtable_size = 16 * 1024;
-        let mut w = crate::props::crash::e2_workload(&mut tr, &cfg, a.tier.pick(36, 70), if bi % 4 == 3 { 3 } else { 1 });
+        let mut w = crate::props::crash::e2_workload(&mut tr, &cfg, a.tier.pick(36, 70), 1);
         // deterministic placement so that ordinals mean the same thing in the faulty rerun
         w.manual_flush_every = *tr.pick(&[6, 9]);
         w.big_batch_pct = 0; // a transaction larger than the memtable is a directed scenario of its own
+        if bi % 2 == 0 {
+            // few hot keys: the transactions right after a failed one write the same keys, so
+            // that anything the failed record still does after recovery (shadowing by sequence
+            // number, resurrection) meets an acknowledged write
+            w.nkeys = 4;
+        }
         w.close_at_end = tr.chance(1, 2);
         let seed = a.seed.wrapping_add(1000 + bi as u64);
         match e2::run_worker(&scratch, &format!("b{}", bi), &cfg, &w, seed, None, None) {
@@ -197,6 +294,18 @@ pub fn run(a: &Args) -> i32 {
                 }
             }
         }
+        // hot-key workloads: every early commit-log fault position, failing once (later
+        // commits are acknowledged and touch the same keys as the failed one)
+        let mut forced = vec![];
+        if b.w.nkeys <= 4 {
+            for cls in ["wal.write", "wal.fsync"] {
+                if let Some(n) = b.counts.get(cls) {
+                    for o in 1..(*n).min(26) {
+                        forced.push(format!("{}:{}:eio:once", cls, o));
+                    }
+                }
+            }
+        }
         // seeded selection down to the tier's budget, keeping every class represented
         for i in (1..mine.len()).rev() {
             let j = r.usize(i + 1);
@@ -214,6 +323,11 @@ pub fn run(a: &Args) -> i32 {
             if chosen.len() >= per_base {
                 break;
             }
+            if !chosen.contains(&s) {
+                chosen.push(s);
+            }
+        }
+        for s in forced {
             if !chosen.contains(&s) {
                 chosen.push(s);
             }
@@ -323,6 +437,7 @@ pub fn run(a: &Args) -> i32 {
             cfg: b.cfg.clone(),
             txns: t.txns.iter().filter(|x| x.first_seq > 0).cloned().collect(),
             failed: t.failed.iter().map(|f| f.id).collect(),
+            failed_recs: if b.w.committers == 1 { t.failed.clone() } else { vec![] },
             plans: keep.clone(),
             probe_every: 0,
             base_dir: None,
@@ -344,11 +459,20 @@ pub fn run(a: &Args) -> i32 {
             // commit log (append or sync), its record stays there and recovery replays it. Exactly
             // that pattern is masked: fault on the commit log, the image shows a failed
             // transaction, and the only problems are its presence and the non-prefix state it causes.
-            let replayed = p.spec.starts_with("wal.") && probs.iter().any(|pb| pb[0] == "failed_visible");
+            // ... and the recovered state is exactly the issue order with the failed
+            // transactions applied at their place (or a plain prefix plus their marker keys)
+            if keep_all && !probs.is_empty() {
+                println!("IMG {} {:?}", res["idx"], probs.iter().map(|pb| format!("{}: {}", pb[0].as_str().unwrap_or(""), pb[1].as_str().unwrap_or("").chars().take(300).collect::<String>())).collect::<Vec<_>>());
+            }
+            let has = |c: &str| probs.iter().any(|pb| pb[0] == c);
+            let replayed = p.spec.starts_with("wal.") && has("failed_visible") && (has("explained_by_failed_replay") || !has("prefix"));
             for pb in probs {
                 let class = pb[0].as_str().unwrap_or("?").to_string();
                 let idx = res["idx"].as_u64().unwrap_or(0) as usize;
                 let ip = &keep[idx.min(keep.len() - 1)];
+                if class == "explained_by_failed_replay" {
+                    continue;
+                }
                 if replayed && finding_f1_open && (class == "failed_visible" || class == "prefix") {
                     masked.fetch_add(1, Ordering::Relaxed);
                     continue;
